@@ -44,16 +44,36 @@ TRIAGE = {
         "random id names the temporary report (file name and report id only); JSON report_id is replaced by the input hash",
     ("TjTime.__init__", "datetime.now(timezone.utc)"):
         "default of the project attribute 'now'; it has no reader on a scheduling or report path (checked: R12.1 reader census)",
-    ("Project._propagateALAPMode", "id(pred)"): "fallback dictionary key when a node has no fullId: membership only, never ordered",
-    ("Project._propagateALAPMode", "id(anchor)"): "fallback dictionary key: membership only",
-    ("Project._markTaskALAP", "id(current)"): "fallback dictionary key: membership only",
-    ("Project._markTaskALAP", "id(task)"): "fallback dictionary key: membership only",
     ("PropertyList.append", "id(x)"): "counts distinct objects (duplicate detection); only the count is used",
     ("DataCache.cached", "id(obj)"): "cache key; the cache never stores anything (cached() returns None)",
     ("report", "temp_output_dir.glob('*.json')"): "directory listing used for membership / emptiness tests only (R19.3 ties the emitted file to the auto id)",
     ("report", "temp_output_dir.glob('*.csv')"): "directory listing used for membership / emptiness tests only",
     ("find_output_files", "*"): "helper without callers",
 }
+
+
+def _membership_only(fn, call, depth=0) -> bool:
+    """The value of `id(x)` is used for identity bookkeeping only: set element, dict key, `in` test, == / != with another
+    value -- never ordered, formatted, returned or stored in an attribute.  One level of local naming is followed."""
+    node = call
+    par = getattr(node, "_parent", None)
+    while isinstance(par, ast.IfExp) and node is not par.test:
+        node, par = par, getattr(par, "_parent", None)
+    if isinstance(par, ast.Call) and isinstance(par.func, ast.Attribute) and par.func.attr in ("add", "discard", "remove") and node in par.args:
+        return True
+    if isinstance(par, ast.Compare) and all(isinstance(o, (ast.In, ast.NotIn, ast.Eq, ast.NotEq)) for o in par.ops):
+        return True
+    if isinstance(par, ast.Subscript) and node is par.slice:
+        return True
+    if isinstance(par, (ast.Set, ast.SetComp)):
+        return True
+    if isinstance(par, ast.Dict) and node in par.keys:
+        return True
+    if isinstance(par, ast.Assign) and depth == 0 and len(par.targets) == 1 and isinstance(par.targets[0], ast.Name):
+        v = par.targets[0].id
+        uses = [x for x in own_nodes(fn) if isinstance(x, ast.Name) and x.id == v and isinstance(x.ctx, ast.Load)]
+        return bool(uses) and all(_membership_only(fn, u, 1) for u in uses)
+    return False
 
 
 def run(ctx: Ctx):
@@ -83,6 +103,8 @@ def run(ctx: Ctx):
             st = c
             while st is not None and not isinstance(st, ast.stmt):
                 st = getattr(st, "_parent", None)
+            if s[0] == "idhash" and norm(c.func) == "id" and _membership_only(fn, c):
+                auto = "id() used for identity bookkeeping only (set element / dict key / membership / equality), never ordered or emitted"
             if fn.qual == "MessageHandlerInstance._log":
                 auto = "log line prefix (file sink, never an output path; log file unset by default)"
             ok = bool(reason or auto)
@@ -241,7 +263,7 @@ def run(ctx: Ctx):
     ss = repo.func("Project.scheduleScenario")
     for x in own_nodes(ss):
         if isinstance(x, (ast.Assign, ast.AnnAssign)) and norm(x.targets[0] if isinstance(x, ast.Assign) else x.target) == "tasks" \
-                and isinstance(x.value, ast.ListComp):
+                and isinstance(x.value, ast.ListComp) and not any(norm(g_.iter) == "tasks" for g_ in x.value.generators):
             conds = " and ".join(norm(c) for g_ in x.value.generators for c in g_.ifs)
             ok = "not t.get('scheduled', scIdx)" in conds
             ctx.ob("R12.3", f"{ss.qual}: work list [{conds}]", (ss, x), ok, "already scheduled tasks are not placed again" if ok else
